@@ -3,9 +3,10 @@ package pager
 import (
 	"git.sr.ht/~rockorager/vaxis"
 	"git.sr.ht/~rockorager/vaxis/zzverif"
+	"strings"
 )
 
-var verifTexts = []string{"", "a", "ab", "abc\n", "ab\ncd", "abcde", "a\n\nb", "世a世", "abc\ndefgh\ni"}
+var verifTexts = []string{"", "a", "ab", "abc\n", "ab\ncd", "abcde", "a\n\nb", "世a世", "abc\ndefgh\ni", "ab\r\ncd", "a\r\n\r\nb\n"}
 
 // VerifC19Pager: layout at a free width presents every character of the text (newlines
 // excepted), in order, including a last line without terminator; no line is wider than the
@@ -22,24 +23,40 @@ func VerifC19Pager() {
 	win := vx.Window().New(0, 0, w, h)
 	zzverif.Terminates(2000)
 	m.Draw(win)
+	// logical lines: a cluster containing a newline ("\n" or "\r\n") terminates the line
+	want := ""
+	var logical []int
+	ln := 0
+	for _, ch := range vaxis.Characters(text) {
+		if strings.ContainsRune(ch.Grapheme, '\n') {
+			ln++
+			continue
+		}
+		want += ch.Grapheme
+		logical = append(logical, ln)
+	}
 	got := ""
-	okWidth := true
+	okWidth, okBreaks := true, true
+	i := 0
 	for _, l := range m.lines {
 		lw := 0
+		first := -1
 		for _, c := range l.characters {
 			got += c.Grapheme
 			lw += c.Width
+			if i < len(logical) {
+				if first < 0 {
+					first = logical[i]
+				}
+				okBreaks = okBreaks && logical[i] == first
+			}
+			i++
 		}
 		okWidth = okWidth && (lw <= w || len(l.characters) == 1)
 	}
-	want := ""
-	for _, ch := range vaxis.Characters(text) {
-		if ch.Grapheme != "\n" {
-			want += ch.Grapheme
-		}
-	}
 	zzverif.Assert(got == want, "every-character-presented-in-order")
 	zzverif.Assert(okWidth, "no-line-wider-than-window")
+	zzverif.Assert(okBreaks, "a-line-terminator-ends-the-line")
 	zzverif.Assert(m.Offset >= 0 && (m.Offset == 0 || m.Offset <= len(m.lines)-h), "offset-clamped-to-content")
 	zzverif.Reach("end")
 }
